@@ -284,7 +284,8 @@ PROPS["C15"]["shards"] = lambda tier, seed, search=False: _c15(tier, seed, searc
 
 PROPS["C11"]["race"] = True
 _c11 = PROPS["C11"]["shards"]
-PROPS["C11"]["shards"] = lambda tier, seed, search=False: _c11(tier, seed, search) + concstore_shards(tier, seed, search, props=("C11",))[:3]
+PROPS["C11"]["shards"] = lambda tier, seed, search=False: _c11(tier, seed, search) + concstore_shards(tier, seed, search, props=("C11",))[:3] + [
+    Shard("cadence", ["-seed", str(s), "-n", "160" if tier == "quick" else "1600"], driver="store", binary="storetrace") for s in seeds(seed, 2)]
 PROPS["C16"]["race"] = True
 _c16 = PROPS["C16"]["shards"]
 PROPS["C16"]["shards"] = lambda tier, seed, search=False: _c16(tier, seed, search) + concstore_shards(tier, seed, search, props=("C16",))[:5]
